@@ -1,6 +1,7 @@
 package main
 
 import (
+	"regexp"
 	"fmt"
 	"go/types"
 	"sort"
@@ -176,13 +177,21 @@ func c01r1(r *R) {
 		{"(*forwarder.HTTPProxy).injectKerberosSPNEGOAuthentication$1", "header:Set Authorization"}:                   "credentials (C06)",
 		{"(*forwarder.HTTPProxy).injectKerberosUpstreamProxyAuthorizationHeader$1", "header:Set Proxy-Authorization"}: "credentials for the upstream hop (C06)",
 	}
+	// a write inside a function literal counts for the function it is written in (a literal may become a
+	// named function and back without any change in behaviour)
+	for k, v := range allowed {
+		if o := outerName(k.fn); o != k.fn {
+			delete(allowed, k)
+			allowed[key{o, k.what}] = v
+		}
+	}
 	used := map[key]bool{}
 	for _, fn := range requestPathFuncs(r) {
 		for _, w := range messageWrites(fn) {
 			if w.owner != "request" {
 				continue
 			}
-			k := key{fname(fn), w.what}
+			k := key{outerName(fname(fn)), w.what}
 			why, ok := allowed[k]
 			used[k] = true
 			r.check(ok, fname(fn)+"#"+w.what, w.at.Pos(), why, "the forwarded request is changed here ("+w.what+" := "+w.val+"); this is not one of the documented differences")
@@ -542,3 +551,8 @@ func c01r9(r *R) {
 		r.check(len(writes) == 0, nm+"#url-argument-read-only", fn.Pos(), "reads its URL argument only", "writes through the URL it was given ("+strings.Join(writes, ", ")+"): callers pass the live request URL, the change goes on the wire")
 	}
 }
+
+var literalSuffix = regexp.MustCompile(`(\$\d+)+$`)
+
+// outerName strips the literal suffixes ($1, $2$1) of a function name.
+func outerName(n string) string { return literalSuffix.ReplaceAllString(n, "") }
